@@ -61,9 +61,17 @@ def returns(paths):
 
 def only(paths, what):
     r = returns(paths)
-    if len(r) != 1:
-        raise AnalysisError(f"{what}: expected exactly one returning trace partition, found {len(r)}")
-    return r[0]
+    if len(r) == 1:
+        return r[0]
+    # several partitions that all return the same term are one result
+    vals = {}
+    for p in r:
+        v = p.value
+        k = nf.key(v.nf) if isinstance(v, Num) else repr(v)[:2000]
+        vals.setdefault(k, p)
+    if len(vals) == 1:
+        return next(iter(vals.values()))
+    raise AnalysisError(f"{what}: expected one result, found {len(vals)} different ones over {len(r)} returning trace partitions")
 
 
 def val_nf(it_or_none, v):
